@@ -223,7 +223,7 @@ def craft_echo(node, dst_ip: str, ttl: int):
     return bool(nic.send_frame(frame))
 
 
-N_TOPOS = 8
+N_TOPOS = 9
 DOMAIN = "c08.example"
 KINDS = ["ping", "dns", "web", "db", "ftp", "ntp"]
 SERVER_SW = {"dns": ["dns-server"], "web": ["dns-server", "web-server"], "db": ["database-service"], "ftp": ["ftp-server"],
